@@ -18,25 +18,18 @@ Definition accepts_plain (q : list dpkg) : bool :=
 
 (* encrypted flow: negotiation acknowledgement, encryption message, three key parameters (cipher suite 1, key, nonce),
    DONE; then - after any packages that are not acknowledgements - success acknowledgement, capabilities the server
-   understood, final DONE.  [usable pem nonce] = every secret fits the key. *)
+   understood, final DONE.  [usable pem nonce] = every secret fits the key.  q1 = what the reply to the login record
+   delivers, q2 = what the reply to the encrypted passwords delivers. *)
 Fixpoint skip_to_ack (q : list dpkg) : list dpkg :=
   match q with
   | [] => []
   | p :: r => if is_ack p then q else skip_to_ack r
   end.
 
-Definition key_params (pf ps : dpkg) : option (bytes * bytes) :=
-  match fmt_types pf, param_data ps with
-  | [t0; t1; t2], [d0; d1; d2] =>
-    if (t0 =? g_dt_int4) && list_Z_eqb d0 [1; 0; 0; 0] && (t1 =? g_dt_longbinary) && (t2 =? g_dt_longbinary)
-       && negb (zlen d1 =? 0) && negb (zlen d2 =? 0)
-    then Some (d1, d2) else None
-  | _, _ => None
-  end.
-
-Definition accepts_enc (usable : bytes -> bytes -> bool) (q : list dpkg) : bool :=
-  match q with
-  | a :: m :: pf :: ps :: d :: rest =>
+Definition accepts_enc (usable : bytes -> bytes -> bool) (q1 q2 : list dpkg) : bool :=
+  match q1 with
+  | a :: m :: pf :: ps :: d :: rest1 =>
+    let rest := rest1 ++ q2 in
     is_ack a && (ack_status a =? g_log_negotiate) && is_msg m && (msg_id m =? g_msg_encrypt4) &&
     is_paramfmt pf && is_params ps && is_done d &&
     match key_params pf ps with
@@ -50,9 +43,6 @@ Definition accepts_enc (usable : bytes -> bytes -> bool) (q : list dpkg) : bool 
     end
   | _ => false
   end.
-
-Definition all_fit (keycap : bytes -> Z) (c : login_cfg) (pem nonce : bytes) : bool :=
-  forallb (fun s => fits_key keycap pem nonce (snd s)) (servers c) && fits_key keycap pem nonce (zeros 32).
 
 (* ---------------------------------------------------------------- C09: the configuration with every secret blinded *)
 Definition blind (c : login_cfg) : login_cfg :=
@@ -86,7 +76,7 @@ Definition plaintexts (li : linput) (o : outcome) : list bytes :=
     let '(ess1, _) := rx_run 0 0 rx_init (nth 0 (li_rounds li) []) in
     match negotiation (delivered_of (concat ess1)) (errs_of (concat ess1)) with
     | inl (pem, nonce, _, _) =>
-      if snd (second_message (blank_enc (li_cap li)) (fun _ => li_cap li) (li_symkey li) (li_cfg li) pem nonce)
+      if all_fit (fun _ => li_cap li) (li_cfg li) pem nonce
       then (nonce ++ lc_password (li_cfg li)) :: map (fun s => nonce ++ snd s) (servers (li_cfg li)) ++ [nonce ++ li_symkey li]
       else []
     | inr _ => []
@@ -117,21 +107,22 @@ Definition login_spec (fn : Z) (i o : tree) : bool :=
   | 30 =>
     (* success exactly when the delivered replies are an acceptance; otherwise an error; afterwards the connection has
        the server's capabilities and the announced packet size *)
-    let '(ess, _) := rx_run 0 0 rx_init (concat (firstn 2 (li_rounds li))) in
-    let es := concat ess in
-    let q := delivered_of es in
+    let '(ess1, rx1) := rx_run 0 0 rx_init (nth 0 (li_rounds li) []) in
+    let '(ess2, _) := rx_run 0 0 rx1 (nth 1 (li_rounds li) []) in
+    let q1 := delivered_of (concat ess1) in
+    let q2 := delivered_of (concat ess2) in
     let acc :=
       if enc_modes_refused (lc_encrypt c) then false
       else if negb (fields_fitb c) then false
-      else if with_encryption (lc_encrypt c) then accepts_enc (all_fit (fun _ => li_cap li) c) q
-      else accepts_plain q in
+      else if with_encryption (lc_encrypt c) then accepts_enc (all_fit (fun _ => li_cap li) c) q1 q2
+      else accepts_plain q1 in
     ((class =? 0) || (class =? 1) || (class =? 2)) &&
     Bool.eqb (class =? 0) acc &&
     (if (class =? 0) && with_encryption (lc_encrypt c) then
-       match skip_to_ack (skipn 5 q) with
+       match skip_to_ack (skipn 5 q1 ++ q2) with
        | _ :: cp :: _ => tree_eqb (t_nth 1 o) (snd cp)
        | _ => false
-       end && (t_int (t_nth 2 o) =? size_after 512 es)
+       end && (t_int (t_nth 2 o) =? size_after 512 (concat ess1 ++ concat ess2))
      else true)
   | 31 =>
     if with_encryption (lc_encrypt c) then
